@@ -349,6 +349,95 @@ fn boundary_cases() -> Vec<Case> {
     out
 }
 
+/// an opcode that is unassigned under the active flags must follow the unknown-operator rule inside a soft-fork guard as
+/// well (the guard's operator set only adds what the extension names): `(softfork (q . c) (q . ext) (q . (OP (q . a)...)) (q . ()))`
+/// under NEW_COST_MODEL, where extensions 0/1 are exempt from cost agreement, so only success/failure and the nil value
+/// are predicted
+#[derive(Serialize, Deserialize, Clone, Debug)]
+pub struct GuardedCase {
+    #[serde(with = "hexbytes")]
+    pub op: Vec<u8>,
+    pub args: Vec<u32>,
+    pub ext: u32,
+    pub flags: u32,
+}
+
+pub fn test_guarded(c: &GuardedCase) -> Verdict {
+    let bits = (c.flags | F_NEW_COST) & !(F_NO_UNKNOWN_OPS | F_LIMIT_SOFTFORK);
+    // operator set inside the guard: extension 0/1 under the new cost model = everything before the hard fork (keccak)
+    let inside = bits | if c.ext <= 1 { F_KECCAK } else { 0 };
+    if is_assigned(&c.op, inside) || c.op == [1] || c.op == [2] {
+        return Verdict::discard();
+    }
+    let sizes: Vec<Option<u64>> = c.args.iter().map(|l| Some(*l as u64)).collect();
+    let rule = unknown_cost(&c.op, &sizes, true, u64::MAX);
+    let r = guard(|| {
+        let mut a = Allocator::new();
+        let one = a.one();
+        let nil = a.nil();
+        let mut list = nil;
+        for l in c.args.iter().rev() {
+            let v = a.new_atom(&vec![0x61u8; *l as usize]).unwrap();
+            let q = a.new_pair(one, v).unwrap();
+            list = a.new_pair(q, list).unwrap();
+        }
+        let o = a.new_atom(&c.op).unwrap();
+        let inner = a.new_pair(o, list).unwrap();
+        let q = |a: &mut Allocator, v: NodePtr| a.new_pair(one, v).unwrap();
+        let cost = a.new_atom(&[0x0f, 0x42, 0x40]).unwrap(); // declared cost 1000000 (not compared for exempt guards)
+        let ext = a.new_number(c.ext.into()).unwrap();
+        let items = [q(&mut a, cost), q(&mut a, ext), q(&mut a, inner), q(&mut a, nil)];
+        let mut l = nil;
+        for i in items.iter().rev() {
+            l = a.new_pair(*i, l).unwrap();
+        }
+        let sf = a.new_atom(&[36]).unwrap();
+        let prog = a.new_pair(sf, l).unwrap();
+        let d = ChiaDialect::new(flags(bits));
+        match run_program(&mut a, &d, prog, nil, 0) {
+            Ok(red) => Ok(a.atom_len(red.1) == 0 && matches!(a.sexp(red.1), clvmr::allocator::SExp::Atom)),
+            Err(e) => Err(format!("{}: {e}", err_kind(&e))),
+        }
+    });
+    let what = || format!("(softfork (q . 1000000) (q . {}) (q . ({} {} atoms of sizes {:?})) (q . ())) flags {}", c.ext, hex::encode(&c.op), c.args.len(), c.args, flag_names(bits));
+    match (r, &rule) {
+        (Err(p), _) => Verdict::fail(format!("panic: {p}\n {}", what())),
+        (Ok(Ok(true)), Unk::Ok(_)) => Verdict::pass(true).label("guarded: ok"),
+        (Ok(Ok(false)), Unk::Ok(_)) => Verdict::fail(format!("the guard did not yield nil\n {}", what())),
+        (Ok(Err(_)), Unk::Ok(_)) if c.ext > 1 => Verdict::pass(false).label("guarded: unknown extension"),
+        (Ok(Err(e)), Unk::Ok(c0)) => Verdict::fail(format!("opcode {} is unassigned inside this guard and the rule gives cost {c0}, but the run fails: {e}\n {}", hex::encode(&c.op), what())),
+        (Ok(Ok(_)), other) => {
+            if c.ext > 1 {
+                // an unknown extension is not entered at all in lenient mode
+                Verdict::pass(false).label("guarded: unknown extension")
+            } else {
+                Verdict::fail(format!("the rule rejects opcode {} ({other:?}) but the guarded run succeeds\n {}", hex::encode(&c.op), what()))
+            }
+        }
+        (Ok(Err(_)), _) => Verdict::pass(true).label("guarded: rejected"),
+    }
+}
+
+fn gen_guarded(t: &mut Tape) -> GuardedCase {
+    let op = match t.below(5) {
+        // opcodes that only exist behind flags, and their unassigned neighbours
+        0 | 1 => vec![*t.pick(&[62u8, 63, 64, 65, 66, 67, 47, 15, 28, 31, 35, 37, 0x3f, 0x7f])],
+        2 => vec![t.below(0x80) as u8],
+        3 => vec![t.below(256) as u8, t.below(256) as u8],
+        _ => {
+            let n = 1 + t.below(6) as usize;
+            t.bytes(n)
+        }
+    };
+    let args = (0..t.below(4)).map(|_| match t.below(4) { 0 => 0, 1 => 32 + t.below(3), 2 => 33 + 32 * t.below(3), _ => t.below(100) }).collect();
+    let mut flags = t.word() & F_ALL & !(F_KECCAK | F_SHA256_TREE | F_SECP);
+    // the enabling flags are mostly off (then 62..65 are plain unknown operators), sometimes on
+    if t.chance(1, 4) {
+        flags |= *t.pick(&[F_KECCAK, F_SHA256_TREE, F_SECP]);
+    }
+    GuardedCase { op, args, ext: *t.pick(&[0u32, 1, 0, 1, 2, 7]), flags }
+}
+
 fn calibrate() -> Result<usize, String> {
     let mut n = 0;
     for (file, new_model) in [("test-unknown-ops", false), ("test-unknown-ops-v2", true)] {
@@ -379,9 +468,14 @@ fn calibrate() -> Result<usize, String> {
     if n == 0 { Err("no pinned unknown-op vectors found".into()) } else { Ok(n) }
 }
 
+pub fn run_guarded(r: &mut Runner) {
+    let n = r.n(10_000, 300_000);
+    r.run_part("guarded", n, 40, gen_guarded, test_guarded);
+}
+
 pub fn run(r: &mut Runner) {
     r.rule = "part small: opcode byte strings of length 0..7 (0xffff prefixes, leading zeros, multipliers 0/1/ff.., all four cost functions, random low six bits; assigned opcodes discarded) x argument lists of 0..8 atoms sized {0,1,<100,KB,MB} and pairs x both cost models x strict/lenient x budgets; \
-        part big: constructed multi-megabyte operands (as views of one buffer) whose base reaches 2^32 with multipliers searched so that base*(m+1) lands just above a multiple of 2^64, plus neighbours. Checked on op_unknown directly and through run_program '(op (q . a1) ...)'. \
+        part big: constructed multi-megabyte operands (as views of one buffer) whose base reaches 2^32 with multipliers searched so that base*(m+1) lands just above a multiple of 2^64, plus neighbours. Checked on op_unknown directly and through run_program '(op (q . a1) ...)'. part guarded: the same call inside a soft-fork guard (extensions 0, 1, unknown; NEW_COST_MODEL so that the guard is exempt from cost agreement), opcodes biased to 62..67 and other values that only exist behind flags: an opcode that is unassigned inside the guard must succeed exactly when the rule says so and the guard yields nil. \
         Oracle: the published rule transcribed over u128 (calibrated on op-tests/test-unknown-ops*.txt). Non-trivial = cost function != 0 with >= 1 argument, or multiplier != 0; distinct by case."
         .into();
     match calibrate() {
@@ -399,6 +493,8 @@ pub fn run(r: &mut Runner) {
     r.run_part("big", n, 20, gen_big, test_case);
     let bc = boundary_cases();
     r.run_enum("boundary", bc.len() as u64, |i| bc[i as usize].clone(), test_case);
+    run_guarded(r);
+    r.require_label("guarded: ok", 500);
     for l in ["Ok", "Reserved", "TooLong", "PairArg", "BaseOverBudget", "ProductTooLarge"] {
         r.require_label(l, 50);
     }
